@@ -739,11 +739,13 @@ Section ReadProofs.
 
   Lemma evict_inv w off cnt :
     Inv (w_st w) -> 0 <= off -> -1 <= cnt ->
-    Inv (w_st (evict w off cnt)) /\ s_actual (w_st (evict w off cnt)) = s_actual (w_st w)
-    /\ w_held (evict w off cnt) = w_held w /\ w_pending (evict w off cnt) = w_pending w.
+    Inv (w_st (evict cfg w off cnt)) /\ s_actual (w_st (evict cfg w off cnt)) = s_actual (w_st w)
+    /\ w_held (evict cfg w off cnt) = w_held w /\ w_pending (evict cfg w off cnt) = w_pending w.
   Proof.
-    intros (Hwf & Hcons & Hact & Hpg) Hoff Hcnt. unfold evict.
-    destruct (Z.eqb_spec cnt (-1)) as [Hc | Hc]; unfold add_log, set_st; cbn [w_st w_held w_pending s_actual];
+    intros Hinv Hoff Hcnt. pose proof Hinv as (Hwf & Hcons & Hact & Hpg). unfold evict.
+    destruct (Z.eqb_spec cnt (-1)) as [Hc | Hc];
+      [destruct (c_tne cfg && (zlen (s_media (w_st w)) <=? off)); [split; [exact Hinv | repeat split; reflexivity] |] |];
+      unfold add_log, set_st; cbn [w_st w_held w_pending s_actual];
       (split; [| repeat split; reflexivity]); unfold Inv; cbn [s_filled s_media s_actual].
     - destruct (removeFrom_spec (s_filled (w_st w)) off Hwf) as [Hwf' Hcov'].
       split; [exact Hwf' |]. split; [| split; assumption].
@@ -770,8 +772,8 @@ Section ReadProofs.
 
   Lemma evict_all_inv w :
     Inv (w_st w) ->
-    Inv (w_st (evict_all w)) /\ s_actual (w_st (evict_all w)) = s_actual (w_st w)
-    /\ w_held (evict_all w) = w_held w /\ w_pending (evict_all w) = w_pending w.
+    Inv (w_st (evict_all cfg w)) /\ s_actual (w_st (evict_all cfg w)) = s_actual (w_st w)
+    /\ w_held (evict_all cfg w) = w_held w /\ w_pending (evict_all cfg w) = w_pending w.
   Proof.
     intros Hinv. unfold evict_all.
     destruct (evict_inv w 0 (-1) Hinv ltac:(lia) ltac:(lia)) as ((I1 & I2 & I3 & I4) & E2 & E3 & E4).
@@ -857,12 +859,12 @@ Section ReadProofs.
       destruct (evict_inv w0 off cnt Hinv Hoff Hcnt) as (E1 & E2 & E3 & E4).
       cbn [fst snd]. split; [unfold Idle; split; [exact E1 | split; assumption] |].
       split; [rewrite E2; unfold w0; cbn [w_st]; lia |]. split; [exact I |].
-      unfold evict. destruct (cnt =? -1); cbn [add_log set_st w_sor w0]; tauto.
+      unfold evict. destruct (cnt =? -1); [destruct (c_tne cfg && (zlen (s_media (w_st w0)) <=? off)) |]; cbn [add_log set_st w_sor w0]; tauto.
     - set (w0 := mkW (w_st w) (w_sor w) (w_wor w) [] [] [] []).
       destruct (evict_all_inv w0 Hinv) as (E1 & E2 & E3 & E4).
       cbn [fst snd]. split; [unfold Idle; split; [exact E1 | split; assumption] |].
       split; [rewrite E2; unfold w0; cbn [w_st]; lia |]. split; [exact I |].
-      unfold evict_all, evict. cbn [Z.eqb add_log set_st w_sor w0]. tauto.
+      unfold evict_all, evict. cbn [Z.eqb]. destruct (c_tne cfg && (zlen (s_media (w_st w0)) <=? 0)); cbn [add_log set_st w_sor w0]; tauto.
   Qed.
 
   (* all results of a run: each read is correct for the oracle suffix it started with *)
@@ -937,7 +939,7 @@ Qed.
 (* a concrete non-trivial state meeting the hypotheses: 5-byte source, bytes 1..2 cached in a
    3-byte media file whose byte 0 is garbage, refill unit 4, page 4 *)
 Definition ex_src : list Z := [11; 12; 13; 14; 15].
-Definition ex_cfg : config := mkCfg 4 4 false false 128 4294967295.
+Definition ex_cfg : config := mkCfg 4 4 false false 128 4294967295 false.
 Definition ex_world : world :=
   mkW (mkStore 5 [(1, 3)] [99; 12; 13] true 0) [] [] [170; 170; 170; 170] [] [] [].
 
